@@ -1076,6 +1076,33 @@ fn distance_simd_unit(tier: Tier, shard: usize, nshards: usize, ctx: &mut Ctx) {
             distance_case(ctx, &v, &a, Some(&bounds));
         }
     }
+    // dense mismatches: whole aligned blocks of 255/256/257 (and 65,536 + 1 for hamming only, below)
+    // positions differ — per-block mismatch counters must not be narrower than the block
+    let other = |c: u8| match c {
+        b'A' => b'T',
+        b'C' => b'G',
+        b'G' => b'C',
+        _ => b'A',
+    };
+    for len in [255usize, 256, 257, 511, 512, 513, 768, 1000] {
+        let a: Vec<u8> = (0..len).map(|i| b"ACGT"[(i * 7 + i / 3) % 4]).collect();
+        let mut variants: Vec<Vec<u8>> = vec![];
+        variants.push(a.iter().map(|&c| other(c)).collect()); // every position differs
+        for (lo, hi) in [(0usize, 256usize), (256, 512), (1, 257), (0, 255), (512, 768)] {
+            if hi <= len {
+                variants.push(a.iter().enumerate().map(|(i, &c)| if i >= lo && i < hi { other(c) } else { c }).collect());
+            }
+        }
+        variants.push(a.iter().enumerate().map(|(i, &c)| if i == 0 { c } else { other(c) }).collect()); // all but the first
+        for v in variants {
+            idx += 1;
+            if idx % nshards != shard {
+                continue;
+            }
+            let bounds = [0u32, 255, 256, len as u32, u32::MAX];
+            distance_case(ctx, &a, &v, Some(&bounds));
+        }
+    }
 }
 
 // ------------------------------------------------------------------ block de-activation family
